@@ -8,7 +8,7 @@ LEAN_MODULE = 'KernProofs.C06'
 THEOREMS = ['KM.C06.C06_export_rows', 'KM.C06.C06_row_is_selected_cells', 'KM.C06.C06_row_projection', 'KM.C06.C06_null_rows_absorbed', 'KM.C06.C06_selection_by_header', 'KM.C06.C06_spine_types_empty', 'KM.rowOfStage_eq', 'KM.exportString_noRange', 'KM.mapM_filterMap_sel']
 FINGERPRINTS = ['exporter.Exporter.export_string', 'exporter.Exporter.append_row', 'exporter.Exporter.compute_header_type',
                 'exporter.Exporter.get_spine_types', 'importer.Importer', 'generic.Generic']
-RULE = ('generated documents with nested splits and joins (quick 25 / thorough 250) x EVERY subset of spine ids and EVERY subset of the occurring '
+RULE = ('generated documents with nested splits and joins (quick 25 / thorough 250) and documents whose operator records shift the ownership of columns while keeping their number (quick 10 / thorough 100) x EVERY subset of spine ids and EVERY subset of the occurring '
         'spine types (and a few mixed id+type selections): export compared with the projection of the source grid onto the selected spines '
         '(computed from the generator\'s live sub-spine tracking, not from kernpy\'s tree) and with the model; the spine-type query compared '
         'with the header line of that projection; non-trivial = document with a split and >= 2 spines; distinct = (document, selection)')
@@ -24,6 +24,9 @@ def explore(ctx, depth):
     import docrun
     import kernpy as kp
     cases = docrun.make_cases(ctx, 25 if depth == 'quick' else 250)
+    # records whose operators keep the number of columns while changing which spine each column belongs to
+    import gen
+    cases += docrun.make_cases(ctx, 0, docs=[gen.shift_doc(ctx.rng) for _ in range(10 if depth == 'quick' else 100)])
 
     def sels(case):
         hs = case.adoc['headers']
